@@ -197,6 +197,10 @@ def _arange(start, stop, step, length, dtype=None, like=None):
     return SArr((n,), lambda idx, a=a, b=b: a + b * z3.ToReal(idx[0]))
 
 
+def _zeros_like(a, dtype=None, order="K", subok=True, shape=None):
+    return _full_like(a, 0, shape=shape)
+
+
 def _finalize(results):
     """dask_array._core_utils.finalize: concatenate3 when any nesting level holds more than one entry, else the lone block"""
     if not results:
@@ -209,7 +213,7 @@ def _finalize(results):
     return r2
 
 
-KERNELS = dict(finalize=_finalize, arange=_arange, concatenate_shaped=_concatenate_shaped, getitem=_getitem, getter=_getter, getter_nofancy=_getter, getter_inline=_getter,
+KERNELS = dict(finalize=_finalize, zeros_like=_zeros_like, arange=_arange, concatenate_shaped=_concatenate_shaped, getitem=_getitem, getter=_getter, getter_nofancy=_getter, getter_inline=_getter,
                concatenate3=concatenate_nested, full_like=_full_like)
 SAFE_NAMES = {"add", "sub", "mul", "neg", "getitem", "transpose", "identity"}
 
